@@ -188,6 +188,12 @@ func init() {
 			}
 			// (c) several unknown options
 			add("unknown-options", &DriverReq{Prog: p, Kind: "parse", Argv: []string{"--zzb", "--zza=1", "-zc", "pos", "--zzd"}, Dispatch: true})
+			// the same definition without required options: the unknown-option diagnostic itself is reached
+			pNoReq := CloneProg(p)
+			for _, o := range pNoReq.Root.Opts {
+				o.Required = false
+			}
+			add("unknown-options", &DriverReq{Prog: pNoReq, Kind: "parse", Argv: []string{"--zzb", "--zza=1", "-zc", "pos", "--zzd"}, Dispatch: true})
 			// (c2) an unknown option one edit away from several declared names (whatever a diagnostic adds about near misses
 			// must not depend on the order in which the library happens to look at the names)
 			nearDone := false
@@ -206,7 +212,7 @@ func init() {
 						}
 					}
 					if ties >= 2 && len(near) >= 2 {
-						add("unknown-near-miss", &DriverReq{Prog: p, Kind: "parse", Argv: []string{"--" + near}, Dispatch: true})
+						add("unknown-near-miss", &DriverReq{Prog: pNoReq, Kind: "parse", Argv: []string{"--" + near}, Dispatch: true})
 						nearDone = true
 						break
 					}
